@@ -5,7 +5,8 @@ VERIF = os.path.dirname(os.path.dirname(os.path.dirname(os.path.abspath(__file__
 REPO = os.environ.get("VERIF_REPO", "/repo")
 COQ = os.path.join(VERIF, "coq")
 HARNESS = os.path.join(VERIF, "harness")
-WORK = os.path.join(VERIF, "work")
+WORK = os.environ.get("VERIF_WORK", os.path.join(VERIF, "work"))
+EVIDENCE_DIR = os.environ.get("VERIF_EVIDENCE_DIR", os.path.join(VERIF, "evidence"))
 
 GOENV = dict(os.environ, GOFLAGS="-mod=mod", GOPROXY="off", GOSUMDB="off", GOTOOLCHAIN="local",
              CGO_ENABLED=os.environ.get("CGO_ENABLED", "0"))
@@ -126,18 +127,23 @@ def coq_eval(wd, name, body, timeout=1800):
 
 def build_harness(wd, race=False):
     """Rebuild the harness test binary against /repo's working tree (tag verif)."""
-    shutil.copy(os.path.join(REPO, "go", "go.sum"), os.path.join(HARNESS, "go.sum")) if not os.path.exists(
-        os.path.join(HARNESS, "go.sum")) else None
+    src = HARNESS
+    if REPO != "/repo":
+        # scratch copy of the harness module whose replace directive points at the scratch repository
+        src = os.path.join(wd, "harness_src")
+        shutil.rmtree(src, ignore_errors=True)
+        shutil.copytree(HARNESS, src)
+        gm = open(os.path.join(src, "go.mod")).read().replace("=> /repo/go", "=> %s/go" % REPO)
+        open(os.path.join(src, "go.mod"), "w").write(gm)
+    shutil.copy(os.path.join(REPO, "go", "go.sum"), os.path.join(src, "go.sum"))
     out_bin = os.path.join(wd, "harness.race.test" if race else "harness.test")
     env = dict(GOENV)
     cmd = ["go1.26", "test", "-c", "-tags", "verif", "-o", out_bin, "."]
     if race:
         env["CGO_ENABLED"] = "1"
         cmd = ["go1.26", "test", "-c", "-race", "-tags", "verif", "-o", out_bin, "."]
-    if REPO != "/repo":
-        cmd[2:2] = []
     with Lock("gobuild"):
-        rc, out = sh(cmd, cwd=HARNESS, env=env, timeout=900)
+        rc, out = sh(cmd, cwd=src, env=env, timeout=900)
     if rc != 0:
         raise CheckError("harness/repo build failed:\n" + out[-6000:])
     return out_bin
@@ -221,8 +227,8 @@ class Result:
         ev = dict(property_id=self.pid, tier=self.tier, seed=self.seed, level="proof",
                   coverage=self.coverage, assumptions=self.assumptions,
                   wall_s=round(time.time() - self.t0, 2), violations=nviol)
-        os.makedirs(os.path.join(VERIF, "evidence"), exist_ok=True)
-        with open(os.path.join(VERIF, "evidence", self.pid + ".json"), "w") as f:
+        os.makedirs(EVIDENCE_DIR, exist_ok=True)
+        with open(os.path.join(EVIDENCE_DIR, self.pid + ".json"), "w") as f:
             json.dump(ev, f, indent=1, default=str)
         if rc == 0:
             print("OK property=%s tier=%s obligations=%s/%s evaluations=%s wall=%.1fs" % (
